@@ -70,6 +70,10 @@ def gen_case(rng, tier, index):
                 "flush_mid": rng.random() < 0.8, "parent_raises": rng.random() < 0.4,
                 "fork_after_flush": rng.random() < 0.3, "two_rounds": rng.random() < 0.5,
                 "pre_create": rng.choice([0, 0, 1, 2])}
+    if k == 7 and (index // 10) % 3 == 2:
+        # the pool object is built in one process and used (entered, filled, left) in a forked child
+        return {"kind": "tmp-forked-use", "ops": [{"creates": rng.randint(1, 4), "raises": rng.random() < 0.4,
+                                                   "multi": rng.random() < 0.4, "parent_creates_first": rng.random() < 0.3}]}
     if k == 7:
         return {"kind": "tmp-race", "ops": [{"creates": rng.randint(20, 60), "pace": rng.choice([0, 0.0005, 0.002])}
                                             for _ in range(rng.randint(1, 3))],
@@ -78,7 +82,7 @@ def gen_case(rng, tier, index):
     nfiles = rng.randint(0, 6)
     files = [rng.randrange(5) for _ in range(nfiles)]
     return {"kind": "filepool", "files": files, "mode": rng.choice(["r", "rb", "w", "a", "r+", "ab", "wb"]),
-            "devnull": rng.random() < 0.3,
+            "devnull": rng.random() < 0.3, "files_form": rng.choice(["list", "list", "tuple", "gen", "iter", "map", "dict_keys"]),
             "ops": [[rng.choice(["get", "len", "iter", "write_or_read", "write_or_read", "close_one"]), rng.randrange(1 << 16)]
                     for _ in range(rng.randint(0, 6))]}
 
@@ -566,6 +570,64 @@ def run_tmp_race(case, res):
     del pool_obj
 
 
+def run_tmp_forked_use(case, res):
+    """A pool object built in the parent, entered / filled / left in a forked child (a worker that owns a scratch pool it
+    inherited): after the child's context nothing it created is left."""
+    from windpyutils.files import TmpPool
+    spec = case["ops"][0]
+    d = fresh_dir("tmpfork")
+    pool = TmpPool(d, multi_proc=spec["multi"])
+    kept = []
+    if spec["parent_creates_first"] and not spec["multi"]:
+        kept.append(pool.create())          # listed in the child's copy of the pool too (what happens to it there is not judged)
+    r, w = os.pipe()
+    pid = os.fork()
+    if pid == 0:
+        code = 0
+        try:
+            os.close(r)
+            instr.reset_for_child("child")
+            made = []
+            try:
+                with pool as p:
+                    for _ in range(spec["creates"]):
+                        made.append(p.create())
+                    os.write(w, ("\n".join(made) + "\n").encode())
+                    if spec["raises"]:
+                        raise Boom("child body raises")
+            except Boom:
+                pass
+        except BaseException:
+            code = 3
+        finally:
+            os._exit(code)
+    os.close(w)
+    data = b""
+    while True:
+        chunk = os.read(r, 65536)
+        if not chunk:
+            break
+        data += chunk
+    os.close(r)
+    _, status = os.waitpid(pid, 0)
+    res.evaluations += 1
+    res.count("pools_used_in_a_forked_child")
+    made = [x for x in data.decode().split("\n") if x]
+    if os.waitstatus_to_exitcode(status) != 0 or len(made) != spec["creates"]:
+        raise Violation("forked-use-failed", f"TmpPool(multi_proc={spec['multi']}) built in the parent and used in a forked child: child "
+                        f"exit code {os.waitstatus_to_exitcode(status)}, {len(made)} of {spec['creates']} files created", {})
+    left = [p for p in made if os.path.exists(p)]
+    if left:
+        raise Violation("exit-leaves-files", f"TmpPool(multi_proc={spec['multi']}) built in the parent, entered and left in a forked child "
+                        f"({'by exception' if spec['raises'] else 'normally'}): {len(left)} of {len(made)} files it created there still exist", {})
+    if not spec["multi"]:
+        pool.flush()
+    if os.listdir(d):
+        raise Violation("flush-leaves-files", f"after the parent's flush() the directory holds {os.listdir(d)}", {})
+    res.seen(("tmpfork", repr(spec)))
+    del pool
+
+
 # --------------------------------------------------------------------------- FilePool
 
 def run_filepool(case, res):
@@ -626,8 +688,12 @@ def run_filepool(case, res):
             if route == "return":
                 return 1
 
+        form = case.get("files_form", "list")
+        given = {"list": lambda: list(paths), "tuple": lambda: tuple(paths), "gen": lambda: (p for p in paths),
+                 "iter": lambda: iter(list(paths)), "map": lambda: map(str, paths),
+                 "dict_keys": lambda: dict.fromkeys(paths).keys()}[form]()      # any iterable of paths, one-shot ones included
         try:
-            with FilePool(list(paths), mode) as fp:
+            with FilePool(given, mode) as fp:
                 pool = fp
                 body(fp)
             if route.startswith("raise"):
@@ -666,6 +732,8 @@ def run_case(case, res):
                     run_tmp_multi(case, res)
                 elif case["kind"] == "tmp-race":
                     run_tmp_race(case, res)
+                elif case["kind"] == "tmp-forked-use":
+                    run_tmp_forked_use(case, res)
                 else:
                     run_filepool(case, res)
             except instr.StepBudgetExceeded:
